@@ -1,12 +1,11 @@
 SPECIFICATION Spec
 CONSTANTS
-  Alphabet = "quick"
-  Mode = "cover"
-  MaxOps = 3
+  Alphabet = "small"
+  Mode = "seq"
+  MaxOps = 4
   Legacy = {}
 INVARIANTS
   LawHolds
   SpellingLaw
   Emit
-VIEW View
 CHECK_DEADLOCK FALSE
